@@ -201,13 +201,31 @@ def rule_fill(ctx):
         if isb == [True]:
             kinds['bool'] = v == ('call', ('attr', ('name', 'np'), 'asarray'), (VAL,), ())
         elif it == [True]:
-            kinds['iterable'] = v[0] == 'call' and T.dotted(v[1]) == 'np.any' and T.kw(v, 'axis') == const(0) and '_matches' in T.show(v)
+            # the mask must have the array's shape for *every* sequence of values, the empty one included: np.any([...], axis=0) of an empty list is the
+            # scalar False, which put() then takes for the label 0; an accumulation starting from an all-False mask of a's shape is what is needed
+            alts = T.strip_phi(v)
+            scalar_for_empty = any(x[0] == 'call' and T.dotted(x[1]) in ('np.any', 'np.logical_or.reduce') and x[2] and x[2][0][0] in ('comp', 'list') for x in alts)
+            seeded = any(x[0] == 'call' and T.dotted(x[1]) in ('np.zeros', 'np.zeros_like', 'np.full', 'np.full_like') and T.contains(x, A) for y in alts for x in T.subterms(y))
+            member = any(x[0] == 'call' and T.call_name(x) == '_matches' and x[2][:1] == (A,) and x[2][1][0] == 'elem' and x[2][1][1] == VAL for y in alts for x in T.subterms(y))
+            if scalar_for_empty:
+                kinds['iterable'] = 'scalar for an empty sequence'
+            else:
+                def is_member(x):
+                    return x[0] == 'call' and T.call_name(x) == '_matches' and x[2][:1] == (A,) and x[2][1][0] == 'elem' and x[2][1][1] == VAL
+                ored = any((x[0] == 'binop' and x[1] == '|' and (is_member(x[2]) or is_member(x[3]))) or
+                           (x[0] == 'call' and T.dotted(x[1]) == 'np.logical_or' and any(is_member(y) for y in x[2]))
+                           for y in alts for x in T.subterms(y))
+                kinds['iterable'] = bool(seeded and member and ored)
         else:
             kinds['scalar'] = v == T.mkcmp('==', A, VAL)
     if kinds == {'bool': True, 'iterable': True, 'scalar': True}:
         ctx.holds('R4', '_matches total: boolean array / iterable (any over members) / scalar (a == value)')
     else:
-        ctx.violated('R4', fi, '_matches', '_matches must handle a boolean mask (as is), an iterable (any of the members) and a scalar (a == value): %s' % kinds)
+        if kinds.get('iterable') == 'scalar for an empty sequence':
+            ctx.violated('R4', fi, '_matches of an empty sequence', 'for a list / tuple of values the mask is np.any([_matches(a, v) for v in value], axis=0): for an empty sequence that is the scalar '
+                         'False, not an all-False mask, and setna([]) hands it to put() as the *label* False == 0 - the slice labelled 0 is set to NaN (or IndexError)')
+        else:
+            ctx.violated('R4', fi, '_matches', '_matches must handle a boolean mask (as is), an iterable (any of the members) and a scalar (a == value): %s' % kinds)
     # is_boolean_array: the mask test behind _matches accepts NumPy *and* DimArray masks (a.setna(a > 1)) of bool dtype, and nothing else
     from ..rules import truth
     fb = ctx.fn(MV + 'is_boolean_array')
